@@ -13,8 +13,10 @@ import (
 func allAkeMutations() []Mut {
 	ms := []Mut{MAkeDamage(0), MAkeDamage(1), MAkeDamage(2), MTruncate(), MVersion(2), MVersion(3)}
 	for v := 0; v < 5; v++ {
-		ms = append(ms, MAkeGroup(v), MTag(true, v), MTag(false, v))
+		ms = append(ms, MAkeGroup(v), MTag(true, v), MTag(false, v), MBadX(v))
 	}
+	// a participant that claims somebody else's key (its own signature does not match it)
+	ms = append(ms, MImpersonate(3), MImpersonate(4))
 	return ms
 }
 
@@ -26,6 +28,9 @@ type sweepRun struct {
 	mutIdx   int  // step index of the damaged delivery, -1 if it was not made
 	rejected bool // the damaged delivery produced no plaintext and nothing to send but error replies
 	label    string
+	encAfter bool // right after the damaged delivery: is the receiver encrypted, and whose key does it report
+	keyAfter int
+	panicked bool
 }
 
 // akeSweepRun: party 1 receives party 2's query and the exchange runs in FIFO order; when a message of type typ is
@@ -34,7 +39,8 @@ type sweepRun struct {
 func akeSweepRun(pol int, seed uint64, typ byte, m Mut, late, withMut, refresh bool) *sweepRun {
 	pols := []int{pol, pol}
 	s := newSys(pols, seed)
-	r := &sweepRun{s: s, pols: pols, mutIdx: -1, label: fmt.Sprintf("type=%#x,%s,late=%v,refresh=%v", typ, m.Kind, late, refresh)}
+	s.keepSecrets()
+	r := &sweepRun{s: s, pols: pols, mutIdx: -1, label: fmt.Sprintf("type=%#x,%s,late=%v,refresh=%v", typ, m.Coq, late, refresh)}
 	if refresh {
 		s.Handshake(1, 2)
 		s.tick(130)
@@ -83,7 +89,9 @@ func (r *sweepRun) deliverMut(f, idx, t int, m Mut) {
 	}
 	before := len(s.ps[t].outs)
 	r.mutIdx = len(s.ops)
-	plain, _ := s.Deliver(f, idx, t, m)
+	plain, pan := s.Deliver(f, idx, t, m)
+	r.panicked = r.panicked || pan
+	r.encAfter, r.keyAfter = s.ps[t].c.IsEncrypted(), fpID(s.ps[t].c.GetTheirKey())
 	// rejected: no plaintext, nothing to send but error replies - and not silently accepted either: an accepted
 	// Signature message also yields neither plaintext nor a reply, but it raises a security event (every other
 	// accepted key-exchange message produces a reply)
